@@ -20,7 +20,8 @@ ASSUMPTIONS = [
     "stat/status/task formats transcribed from fs/proc/array.c and compared with the live 6.18 kernel",
     "status Name: escaping is the kernel's (newline and backslash only)",
     "records are never truncated below the 'processor' field (psutil has always required it)",
-    "cmdline is empty so the name-extension rule of C12 is inert",
+    "cmdline is empty, or the name is shorter than 15 bytes, so the name-extension rule of C12 is inert",
+    "/dev/pts is a generated inventory (regular files reported as character devices 136:n, n up to 2^20-1); tty_nr uses the kernel's new_encode_dev() encoding, which equals glibc's makedev() for these numbers",
     "unknown state letters: only 'no exception' is asserted (statement maps documented letters only)",
 ]
 REQUIRED_COUNTERS = ["getter_comparisons", "thread_rows_compared"]
@@ -76,14 +77,33 @@ def gen_mag(rng):
     return rng.randrange(0, 2**64)
 
 
+FAKE_PTS = [0, 1, 5, 255, 256, 257, 300, 511, 512, 4095, 4096, 65535, 65536, 1048575]
+
+
 def tty_numbers():
+    """Device inventory psutil will see: the real /dev/tty* plus a generated /dev/pts with large minors
+    (st_rdev = makedev(136, n), which is also how the kernel encodes tty_nr in /proc/<pid>/stat)."""
     out = []
-    for name in glob.glob("/dev/tty*") + glob.glob("/dev/pts/*"):
+    for name in glob.glob("/dev/tty*"):
         try:
             out.append((os.stat(name).st_rdev, name))
         except OSError:
             pass
+    for n in FAKE_PTS:
+        out.append((os.makedev(136, n), f"/dev/pts/{n}"))
     return out
+
+
+def fake_pts_dir():
+    import tempfile
+    d = tempfile.mkdtemp(prefix="c06_pts_")
+    for n in FAKE_PTS:
+        with open(os.path.join(d, str(n)), "w"):
+            pass
+    import atexit
+    import shutil
+    atexit.register(shutil.rmtree, d, True)
+    return d
 
 
 def gen_case(rng, ttys):
@@ -103,6 +123,12 @@ def gen_case(rng, ttys):
         nfields=rng.choice([52] * 6 + [39, 40, 41, 42, 44, 47, 51]),
         threads=[],
     )
+    comm_b = _b(case["comm"])
+    if 0 < len(comm_b) < 15 and b"\0" not in comm_b and rng.random() < 0.35:
+        # a name the kernel did NOT truncate must be reported as is, whatever argv[0] looks like (the 15-byte
+        # completion rule of C12 does not apply)
+        tail = rng.choice([b"", b"3", b"3.12", b":", b"-pool-manager", b" helper"])
+        case["cmdline"] = _s(rng.choice([b"", b"/usr/bin/", b"/opt/x y/"]) + comm_b + tail + b"\0--flag\0")
     if nthreads > 1:
         base = case["pid"]
         for i in range(nthreads):
@@ -150,7 +176,7 @@ def setup():
     from vlib import psu, vkernel
     from vlib.proctable import ProcTable
     ps = psu.load()
-    _env.update(ps=ps, vkernel=vkernel, ProcTable=ProcTable, ttys=tty_numbers(),
+    _env.update(ps=ps, vkernel=vkernel, ProcTable=ProcTable, ttys=tty_numbers(), pts_dir=fake_pts_dir(),
                 clk=os.sysconf("SC_CLK_TCK"))
     ps.PROCFS_PATH = "/vproc"
     return _env
@@ -166,7 +192,7 @@ def run_case(case, acc):
     comm = _b(case["comm"])
     p = t.spawn(case["pid"], case["start"], ppid=case["ppid"], comm=comm)
     p.state = case["state"]
-    p.cmdline = b""
+    p.cmdline = _b(case.get("cmdline", ""))
     for k in ("utime", "stime", "cutime", "cstime", "blkio", "processor", "tty_nr", "vctx", "nvctx"):
         setattr(p, k, case[k])
     p.uids = tuple(case["uids"])
@@ -179,6 +205,8 @@ def run_case(case, acc):
     vk = vkernel.VK()
     vk.table = t
     vk.mount("/vproc", t)
+    vk.redirect("/dev/pts", env["pts_dir"])
+    vk.rdev = {f"/dev/pts/{n}": os.makedev(136, n) for n in FAKE_PTS}
     viols = []
     ttymap = dict(env["ttys"])
 
